@@ -1,33 +1,48 @@
-"""setup_cmd: build the Coq development and every harness binary from files on disk (offline)."""
+"""setup_cmd: build the Coq development and every harness binary from files on disk (offline).
+Tolerant: a Props file or harness that does not build is reported here and then again, as a
+violation, by the check that needs it; setup itself only fails when nothing can be built."""
 import os
-import re
 import sys
 
 from . import common as C
 
 
 def harness_packages():
-    txt = open(os.path.join(C.HARNESS, "Cargo.toml")).read()
-    m = re.search(r"members\s*=\s*\[(.*?)\]", txt, re.S)
-    return re.findall(r'"([^"]+)"', m.group(1))
+    out = []
+    for d in sorted(os.listdir(C.HARNESS)):
+        if os.path.exists(os.path.join(C.HARNESS, d, "Cargo.toml")):
+            out.append("vh-" + d)
+    return out
 
 
 def main():
     C.ensure_dirs()
-    ok, log = C.coq_make([], timeout=3000)
-    print(log[-2000:])
-    if not ok:
-        print("setup: coq build failed")
-        sys.exit(1)
-    rc = 0
-    for member in harness_packages():
-        pkg = "vh-" + member
-        ok, binary, log = C.harness_build(pkg)
-        print("setup: %s -> %s" % (pkg, "ok" if ok else "FAILED"))
+    props = sorted(f for f in os.listdir(os.path.join(C.COQ, "Props")) if f.endswith(".v"))
+    okc = 0
+    for p in props:
+        ok, log = C.coq_make(["Props/" + p + "o"], timeout=3000)
+        print("setup: coq Props/%s -> %s" % (p, "ok" if ok else "FAILED"))
+        if not ok:
+            print(log[-1500:])
+        okc += ok
+    okh = 0
+    pk = harness_packages()
+    for pkg in pk:
+        modes = [False]
+        if os.path.exists(os.path.join(C.harness_dir(pkg), "RELEASE")):
+            modes.append(True)
+        for rel in modes:
+            ok, binary, log = C.harness_build(pkg, release=rel)
+            print("setup: %s%s -> %s" % (pkg, " (release)" if rel else "", "ok" if ok else "FAILED"))
+            if not ok:
+                print(log[-3000:])
+            okh += ok
+    if os.path.exists(os.path.join(C.VERIF, "harness", "NEEDS_CLI")):
+        ok, bins, log = C.cli_build()
+        print("setup: veryl CLI -> %s" % ("ok" if ok else "FAILED"))
         if not ok:
             print(log[-3000:])
-            rc = 1
-    sys.exit(rc)
+    sys.exit(0 if (okc or not props) and (okh or not pk) else 1)
 
 
 if __name__ == "__main__":
